@@ -344,7 +344,8 @@ pub const NUMS: [&str; 22] = [
     "0", "1", "2", "7", "10", "255", "0x1f", "0xFF", "017", "08", "1.5", ".5", "5.", "1e3", "1e-3", "2.5e2", "9007199254740993",
     "9223372036854775807", "9223372036854775808", "0xffffffffffffffffff", "1e999", "0.1",
 ];
-pub const STRS: [&str; 12] = ["", "a", "x", "length", "1", "0", " ", "\u{0}1", "it's \"q\" \\ \n", "汉\u{1f600}", "z\u{200b}\u{7f}\u{8}\u{1b}w", "\t\r\u{b}\u{c}\u{2028}"];
+pub const STRS: [&str; 14] = ["", "a", "x", "length", "1", "0", " ", "\u{0}1", "it's \"q\" \\ \n", "汉\u{1f600}", "z\u{200b}\u{7f}\u{8}\u{1b}w", "\t\r\u{b}\u{c}\u{2028}",
+    "\u{1}f\u{2}", "\u{e}\u{f}0\u{7}\u{10}a"];
 
 pub struct ExprGen<'a> {
     pub rng: &'a mut Rng,
